@@ -190,7 +190,8 @@ PROPS = {
         monitor_clauses=r'_rt_c05',
         monitor_quick=[RF + c + '.rfa' for c in ('ExpFixedRFA', 'LinearAdaptiveRFA', 'ExpAdaptiveRFA', 'CubicSplineRFA', 'LinearFixedRFA')],
         functions=[RF + 'LinearFixedRFA.rfa', RF + 'ExpFixedRFA.rfa', RF + 'PiecewiseConstantRFA.rfa', 'lemma:rfa.linear_fixed.bounds',
-                   'lemma:rfa.linear_fixed.monotone', 'lemma:rfa.exp_fixed.bounds', RF + 'LinearAdaptiveRFA.get_adaptive_transition_points']
+                   'lemma:rfa.linear_fixed.monotone', 'lemma:rfa.exp_fixed.bounds', RF + 'LinearAdaptiveRFA.get_adaptive_transition_points',
+                   RF + 'LinearAdaptiveRFA.rfa', 'lemma:rfa.linear_adaptive.bounds']
         + [RF + c + '.__init__' for c in ('LinearFixedRFA', 'ExpFixedRFA', 'LinearAdaptiveRFA', 'ExpAdaptiveRFA')],
         level='proof',
         explanation=("PROVED for LinearFixedRFA, ExpFixedRFA and PiecewiseConstantRFA, all series / spacings / n / windows / linear share / "
@@ -207,7 +208,8 @@ PROPS = {
         monitor_clauses=r'_rt_c06',
         monitor_quick=[RF + c + '.rfa' for c in ('ExpFixedRFA', 'LinearAdaptiveRFA', 'ExpAdaptiveRFA', 'LinearFixedRFA')],
         functions=[M + 'funfit.' + f for f in ('lin_fit', 'exp_fit', 'exp_xy_fit', 'exp_lin_fit', 'lin_exp_xy_fit')]
-        + [RF + 'LinearFixedRFA.rfa', RF + 'ExpFixedRFA.rfa', 'lemma:rfa.exp_fixed.bounds', RF + 'LinearAdaptiveRFA.get_adaptive_transition_points']
+        + [RF + 'LinearFixedRFA.rfa', RF + 'ExpFixedRFA.rfa', 'lemma:rfa.exp_fixed.bounds', RF + 'LinearAdaptiveRFA.get_adaptive_transition_points',
+           RF + 'LinearAdaptiveRFA.rfa']
         + [RF + c + '.__init__' for c in ('LinearFixedRFA', 'ExpFixedRFA', 'LinearAdaptiveRFA', 'ExpAdaptiveRFA')],
         level='proof',
         explanation=("PROVED: the five shape functions equal their closed forms for every exponent and hit both end points; "
@@ -224,7 +226,8 @@ PROPS = {
         monitor_clauses=r'_rt_c07',
         monitor_quick=[RF + c + '.rfa' for c in ('PiecewiseConstantRFA', 'LinearFixedRFA', 'ExpFixedRFA', 'LinearAdaptiveRFA', 'ExpAdaptiveRFA', 'CubicSplineRFA')],
         functions=[RF + 'LinearFixedRFA.rfa', RF + 'PiecewiseConstantRFA.rfa', 'lemma:rfa.linear_fixed.equivariance_y', 'lemma:rfa.linear_fixed.equivariance_x',
-                   'lemma:rfa.linear_fixed.locality', RF + 'ExpFixedRFA.rfa', 'lemma:rfa.exp_fixed.locality',
+                   'lemma:rfa.linear_fixed.locality', RF + 'ExpFixedRFA.rfa', 'lemma:rfa.exp_fixed.locality', RF + 'LinearAdaptiveRFA.rfa',
+                   'lemma:rfa.linear_adaptive.locality', 'lemma:rfa.linear_adaptive.equivariance_y',
                    RF + 'LinearAdaptiveRFA.get_adaptive_transition_points'],
         level='proof',
         explanation=("PROVED for LinearFixedRFA (relational lemmas over the closed form the code is proved to compute, two strategy "
